@@ -197,11 +197,11 @@ class Ctx:
                 out.append(json.loads(line))
         return out
 
-    CHUNK_BYTES = int(os.environ.get("VERIF_CHUNK_MB", "60")) * 1024 * 1024      # a trace module reads its whole log into TLC values: logs are judged in pieces of about this size
+    CHUNK_BYTES = int(os.environ.get("VERIF_CHUNK_MB", "48")) * 1024 * 1024      # a trace module reads its whole log into TLC values: logs are judged in pieces of about this size
 
     def _chunks(self, trace_path):
         """split a log into pieces (whole lines) of about CHUNK_BYTES; yields (path, first_line_number - 1, number_of_lines)"""
-        if os.path.getsize(trace_path) <= self.CHUNK_BYTES * 3 // 2:
+        if os.path.getsize(trace_path) <= self.CHUNK_BYTES:      # (a 94 MB log judged in one piece once filled an 8 GB heap to the brim)
             yield trace_path, 0, sum(1 for _ in open(trace_path))
             return
         k, off, cnt, size, out = 0, 0, 0, 0, None
